@@ -49,8 +49,7 @@ TRANSPARENT = {
 }
 TRANSPARENT_METHODS = {'copy', 'items', 'values', 'keys', 'get', 'pop',
                        'setdefault', 'format', 'join', 'split', 'strip',
-                       'lstrip', 'rstrip', 'lower', 'upper', 'as_directory',
-                       'getvalue'}
+                       'lstrip', 'rstrip', 'lower', 'upper', 'as_directory'}
 MUTATORS_ELEM = {'append', 'add', 'insert'}
 MUTATORS_SEQ = {'extend', 'update', 'collect'}
 
